@@ -45,10 +45,14 @@ package pattern
 //@   ensures  [nonnil] m.State != nil || old(m.State) == nil
 // structural equality of plain AST values (what a recalled binding is compared with): a list
 // equals a single node only if it has exactly one element (a block statement / field list
-// stands for its list, a labelled statement for the statement it labels)
+// stands for its list, a labelled statement for the statement it labels), and two lists are
+// equal only if they have the same length
 //@   ensures  [one_expr_l]  result1 && istype(l, []ast.Expr) && !istype(r, []ast.Expr) ==> len(astype(l, []ast.Expr)) == 1
 //@   ensures  [one_stmt_l]  result1 && istype(l, []ast.Stmt) && !istype(r, []ast.Stmt) && !istype(r, *ast.BlockStmt) && !istype(r, *ast.LabeledStmt) ==> len(astype(l, []ast.Stmt)) == 1
 //@   ensures  [one_field_l] result1 && istype(l, []*ast.Field) && !istype(r, []*ast.Field) && !istype(r, *ast.FieldList) ==> len(astype(l, []*ast.Field)) == 1
+//@   ensures  [len_expr]    result1 && istype(l, []ast.Expr) && istype(r, []ast.Expr) ==> len(astype(l, []ast.Expr)) == len(astype(r, []ast.Expr))
+//@   ensures  [len_stmt]    result1 && istype(l, []ast.Stmt) && istype(r, []ast.Stmt) ==> len(astype(l, []ast.Stmt)) == len(astype(r, []ast.Stmt))
+//@   ensures  [len_field]   result1 && istype(l, []*ast.Field) && istype(r, []*ast.Field) ==> len(astype(l, []*ast.Field)) == len(astype(r, []*ast.Field))
 //@   ensures  [one_expr_r]  result1 && istype(r, []ast.Expr) && !istype(l, []ast.Expr) && !istype(l, matcher) && !istype(l, Node) ==> len(astype(r, []ast.Expr)) == 1
 //@   ensures  [one_stmt_r]  result1 && istype(r, []ast.Stmt) && !istype(l, []ast.Stmt) && !istype(l, *ast.BlockStmt) && !istype(l, *ast.LabeledStmt) && !istype(l, matcher) && !istype(l, Node) ==> len(astype(r, []ast.Stmt)) == 1
 //@   ensures  [one_field_r] result1 && istype(r, []*ast.Field) && !istype(l, []*ast.Field) && !istype(l, *ast.FieldList) && !istype(l, matcher) && !istype(l, Node) ==> len(astype(r, []*ast.Field)) == 1
